@@ -268,9 +268,7 @@ def build_cases(ctx):
             ed = {"what": "resSeq", "value": 10000}
         else:
             ed = {"what": "serial", "value": 100000}
-        # judged against the statement only until the Lean model of can_write_pdb follows the repaired PDB branch
-        # (model=False: no model/impl comparison for this family)
-        cases.append({"source": "gen", "format": "PDB", "rows": rows, "edit": ed, "family": "pdb-derived-edited", "model": False})
+        cases.append({"source": "gen", "format": "PDB", "rows": rows, "edit": ed, "family": "pdb-derived-edited"})
     # hand-made minimal shapes
     base = {"record": "ATOM", "serial": 1, "name": "P", "altLoc": "", "resName": "G", "chain": "AA", "resSeq": 1, "iCode": "",
             "x": 1000, "y": -2000, "z": 3, "occ": 100, "b": 2050, "element": "P", "charge": "", "model": 1}
@@ -387,6 +385,7 @@ def run(ctx):
     t0 = time.time()
     judge(ctx, res, cases, outs)
     res.notes.append("model + judge %.1fs" % (time.time() - t0))
+    __import__("corr.c10_tools", fromlist=["run_tools"]).run_tools(ctx, res)   # unifier.main (wpOPS)
     for case, o in list(zip(cases, outs))[:2] + list(zip(cases, outs))[-2:]:
         res.sample({"family": case["family"], "rows": o["n"], "counts(rows,chains,max residues,chain changes)": o["counts"],
                     "outcome": o["fit"][:2], "canwrite": o["canwrite"]})
@@ -402,6 +401,8 @@ def signatures_of(ctx, case):
 
 
 def shrink(ctx, failure):
+    if failure["input"].get("source") == "unifier":
+        return __import__("corr.c10_tools", fromlist=["shrink"]).shrink(ctx, failure)
     case = failure["input"]
     sig = failure["signature"]
 
@@ -425,6 +426,8 @@ def shrink(ctx, failure):
 
 
 def replay(ctx, data):
+    if data["input"].get("source") == "unifier":
+        return __import__("corr.c10_tools", fromlist=["replay"]).replay(ctx, data)
     case = data["input"]
     res, o = signatures_of(ctx, case)
     print("table: format=%s rows=%d (rows, chains, max residues per chain, chain changes)=%s" % (o.get("fmt"), o.get("n", 0), o.get("counts")))
